@@ -290,6 +290,18 @@ struct BC {
   BABYLON_COMPATIBLE((vs, 1)(va, 2)(vi, 3)(ls, 16))
   AGG { vis(vs); vis(va); vis(vi); vis(ls); }
 };
+// key type with cached sizes (top-level map: the map's own SERIALIZED_SIZE_CACHED decides whether a sizing pass runs)
+struct Ky {
+  std::vector<int32_t> v;
+  BABYLON_COMPATIBLE((v, 1))
+  AGG { vis(v); }
+  bool operator==(const Ky& o) const { return v == o.v; }
+};
+namespace std {
+template <> struct hash<Ky> {
+  size_t operator()(const Ky& k) const noexcept { size_t h = 7; for (auto x : k.v) h = h * 131 + static_cast<uint32_t>(x); return h; }
+};
+}
 struct H2 {
   std::vector<int32_t> v;
   H1 m;
@@ -558,8 +570,9 @@ static std::string jb(const std::string& s) { return bytes_j(s.data(), s.size())
 static void emit(const std::string& line) { fputs(line.c_str(), g_out); fputc('\n', g_out); fflush(g_out); }
 
 template <class T> static std::string ser_record(const Case& c, T& obj, int dirty) {
-  size_t pred = Serialization::calculate_serialized_size(obj);
+  // serialize FIRST (the library has to run its own sizing pass where it needs one), then ask for the predicted size
   std::string s; bool ok = Serialization::serialize_to_string(obj, s);
+  size_t pred = Serialization::calculate_serialized_size(obj);
   // through a coded stream over a chunked output (3 byte blocks)
   std::string s2; { ::google::protobuf::io::StringOutputStream so(&s2); CodedOutputStream cos(&so);
                     ok = Serialization::serialize_to_coded_stream(obj, cos) && ok; }
@@ -624,7 +637,9 @@ template <class T> static void run_case(const Case& c) {
 using Runner = void (*)(const Case&);
 static std::map<std::string, Runner> runners() {
   return {{"TI32", run_case<int32_t>}, {"TStr", run_case<std::string>}, {"TVecI", run_case<std::vector<int32_t>>},
-          {"TPtrS", run_case<std::unique_ptr<std::string>>}, {"Sc", run_case<Sc>}, {"St", run_case<St>}, {"Co", run_case<Co>},
+          {"TPtrS", run_case<std::unique_ptr<std::string>>}, {"TMk", run_case<std::unordered_map<Ky, int32_t>>},
+          {"TMv", run_case<std::unordered_map<int32_t, Ky>>}, {"TVMk", run_case<std::vector<std::unordered_map<Ky, int32_t>>>},
+          {"TPMk", run_case<std::unique_ptr<std::unordered_map<Ky, int32_t>>>}, {"Sc", run_case<Sc>}, {"St", run_case<St>}, {"Co", run_case<Co>},
           {"Pt", run_case<Pt>}, {"De", run_case<De>}, {"Re", run_case<Re>}, {"Ca", run_case<Ca>}, {"CaN", run_case<CaN>},
           {"PV", run_case<PV>}, {"Cp", run_case<Cp>}, {"Wm", run_case<Wm>}, {"BS", run_case<BS>}, {"BN", run_case<BN>}, {"BSL", run_case<BS>}, {"BNL", run_case<BN>}, {"BM", run_case<BM>}, {"BC", run_case<BC>}, {"H1", run_case<H1>}, {"H2", run_case<H2>},
           {"H3", run_case<H3>}, {"H4", run_case<H4>}, {"H5", run_case<H5>}};
@@ -634,12 +649,14 @@ int main(int argc, char** argv) {
   std::string cases_path, out_path;
   size_t batch = 400;
   unsigned alarm_s = 20;
+  size_t max_crashes = 40;   // enough witnesses: a build in which (nearly) every case dies is not replayed to the end
   for (int i = 1; i + 1 < argc; i += 2) {
     std::string a = argv[i];
     if (a == "--cases") cases_path = argv[i + 1];
     else if (a == "--out") out_path = argv[i + 1];
     else if (a == "--build") g_build = argv[i + 1];
     else if (a == "--batch") batch = static_cast<size_t>(atol(argv[i + 1]));
+    else if (a == "--max-crashes") max_crashes = static_cast<size_t>(atol(argv[i + 1]));
     else if (a == "--alarm") alarm_s = static_cast<unsigned>(atol(argv[i + 1]));
   }
   std::vector<Case> cases;
@@ -687,8 +704,9 @@ int main(int argc, char** argv) {
          (g_progress[1] ? "u" : "b") + "\",\"status\":\"" + (hang ? "hang" : "crash") + "\",\"code\":" +
          std::to_string(WIFSIGNALED(st) ? 1000 + WTERMSIG(st) : WEXITSTATUS(st)) + "}");
     next = at + 1;
+    if (crashes >= max_crashes) break;
   }
   fclose(g_out);
-  printf("{\"cases\":%zu,\"crashes\":%zu,\"hangs\":%zu}\n", cases.size(), crashes, hangs);
+  printf("{\"cases\":%zu,\"done\":%zu,\"crashes\":%zu,\"hangs\":%zu}\n", cases.size(), next, crashes, hangs);
   return 0;
 }
